@@ -201,6 +201,14 @@ func c17Scenarios() []c17Scenario {
 	tx("ClaimDeveloperRewards/same-shard", "ClaimDeveloperRewards", func(u *universe) ([]byte, []byte, [][]byte) { return u.U[0], u.K[0], nil }, own(u0, 500), nil)
 	tx("ClaimDeveloperRewards/same-shard/async", "ClaimDeveloperRewards", func(u *universe) ([]byte, []byte, [][]byte) { return u.U[0], u.K[0], nil }, own(u0, 500),
 		func(cs *callSpec) { cs.CallType = vmcommon.AsynchronousCall; cs.Locked = 7 })
+	// the owner is itself a contract living on the rewarded contract's shard (its own branch of ClaimDeveloperRewards)
+	kOwner := func(u *universe) []byte { return scAddr(0x33) }
+	tx("ClaimDeveloperRewards/same-shard/contract-owner", "ClaimDeveloperRewards", func(u *universe) ([]byte, []byte, [][]byte) { return scAddr(0x33), u.K[0], nil }, own(kOwner, 500), nil)
+	tx("ClaimDeveloperRewards/same-shard/contract-owner/async", "ClaimDeveloperRewards", func(u *universe) ([]byte, []byte, [][]byte) { return scAddr(0x33), u.K[0], nil }, own(kOwner, 500),
+		func(cs *callSpec) { cs.CallType = vmcommon.AsynchronousCall; cs.Locked = 7 })
+	tx("ClaimDeveloperRewards/same-shard/contract-owner/callback", "ClaimDeveloperRewards", func(u *universe) ([]byte, []byte, [][]byte) { return scAddr(0x33), u.K[0], nil }, own(kOwner, 500),
+		func(cs *callSpec) { cs.CallType = vmcommon.AsynchronousCallBack })
+	tx("ChangeOwnerAddress/same-shard/contract-owner", "ChangeOwnerAddress", func(u *universe) ([]byte, []byte, [][]byte) { return scAddr(0x33), u.K[0], [][]byte{u.U[1]} }, own(kOwner, 0), nil)
 	tx("ClaimDeveloperRewards/origin/cross-shard(no dependency)", "ClaimDeveloperRewards", func(u *universe) ([]byte, []byte, [][]byte) { return u.U[2], u.K[0], nil }, own(u2, 500), nil)
 	dest("ClaimDeveloperRewards/destination/cross-shard", "ClaimDeveloperRewards", func(u *universe) ([]byte, []byte, [][]byte) { return u.U[2], u.K[0], nil }, own(u2, 500), nil)
 	tx("SetUserName/destination-present(no dependency)", "SetUserName", func(u *universe) ([]byte, []byte, [][]byte) { return u.DNS, u.U[0], [][]byte{[]byte("alice.elrond")} }, nil, nil)
